@@ -9,6 +9,7 @@ generator, see notes/C06.md), not proved.
 -/
 import DropshotProofs.C02
 import DropshotProofs.Lemmas.RouterOrder
+import DropshotProofs.Lemmas.DocRefs
 
 namespace Dropshot.C06
 open Dropshot
@@ -178,6 +179,43 @@ theorem doc_tags_order_independent (es es' : List (Endpoint V)) (t t' : Node V)
     (tagsOf : Endpoint V → List String) (configured : List String) :
     docEndpointTags tagsOf configured t v = docEndpointTags tagsOf configured t' v := by
   simp only [docEndpointTags, doc_list_order_independent es es' t t' hperm hr h h' v]
+
+/-! ### References resolve inside the document
+
+Model `DropshotModel/DocRefs.lean`: each endpoint contributes the references that occur
+inline in its operation and a set of named definitions; `components.schemas` is their union
+(insert or replace by name).  The hypothesis - each contribution is closed - is the contract
+of schemars' generator and of `ReferenceVisitor`, which the Lean model does not contain; the
+`refs` stream checks the conclusion on every generated document instead. -/
+
+/-- **C06, references.**  If whatever an endpoint's operation or one of its definitions refers
+to is among that endpoint's definitions, then every `#/components/schemas/…` reference of the
+assembled document resolves inside it - for every set of endpoints, in every order, also when
+two endpoints define the same name. -/
+theorem refs_closed (cs : List DocRefs.Contribution) (h : ∀ c ∈ cs, c.closed) :
+    ∀ r ∈ DocRefs.docRefs cs, r ∈ (DocRefs.components cs).map (·.name) :=
+  DocRefs.refs_closed cs h
+
+/-- … and `components.schemas` holds exactly the contributed names: nothing else is defined. -/
+theorem components_exact (cs : List DocRefs.Contribution) (n : String) :
+    n ∈ (DocRefs.components cs).map (·.name) ↔ ∃ c ∈ cs, n ∈ c.names :=
+  DocRefs.components_names cs n
+
+/-- Non-vacuity: two endpoints, a shared name (`Error`) and a nested reference. -/
+example :
+    let cs : List DocRefs.Contribution :=
+      [{ inline := ["Disk", "Error"], defs := [⟨"Disk", ["State"]⟩, ⟨"State", []⟩, ⟨"Error", []⟩] },
+       { inline := ["Error"], defs := [⟨"Error", []⟩] }]
+    (DocRefs.components cs).map (·.name) = ["Disk", "State", "Error"] ∧
+      DocRefs.docRefs cs = ["Disk", "Error", "Error", "State"] := by decide
+
+/-- … and those contributions satisfy the hypothesis of `refs_closed`. -/
+example :
+    let cs : List DocRefs.Contribution :=
+      [{ inline := ["Disk", "Error"], defs := [⟨"Disk", ["State"]⟩, ⟨"State", []⟩, ⟨"Error", []⟩] },
+       { inline := ["Error"], defs := [⟨"Error", []⟩] }]
+    ∀ c ∈ cs, c.closed := by
+  simp [DocRefs.Contribution.closed, DocRefs.Contribution.names]
 
 /-! ### Non-vacuity -/
 
